@@ -148,6 +148,30 @@ static bool code_allowed(const jm::Fault& f, int code) {
   }
 }
 
+// A text may contain an overflowing number AND be structurally broken (typically: also truncated).  The code then
+// names "the fault class" whichever of the two it names: the parser is entitled to notice the structural fault without
+// having reached the number (its node budget is sized from the text length, so running out of it proves that the
+// text is not valid).  Decided by the reference itself: every overflowing number token is replaced by 0 and the text is
+// judged again; a structural code is accepted only if the reference then finds a structural fault.
+static vf::Counter c_two_faults("invalid:overflowing-number-and-structural-fault(either code accepted)");
+static bool structural_fault_besides_overflow(const std::string& text, const jm::RefResult& ref, int code) {
+  if (ref.f.cls != jm::Fault::Infinity || (code != kParseErrorInvalidChar && code != kParseErrorEof)) return false;
+  std::string t = text;
+  jm::RefResult rr = ref;
+  for (int guard = 0; guard < 64 && !rr.ok && rr.f.cls == jm::Fault::Infinity; guard++) {
+    size_t b = rr.f.pos, e = b;
+    while (e < t.size() && (isdigit((unsigned char)t[e]) || t[e] == '-' || t[e] == '+' || t[e] == '.' || t[e] == 'e' || t[e] == 'E')) e++;
+    if (e == b) return false;
+    t.replace(b, e - b, "0");
+    rr = jm::ref_parse(t);
+  }
+  if (!rr.ok && rr.f.cls == jm::Fault::Structural) {
+    c_two_faults.add();
+    return true;
+  }
+  return false;
+}
+
 template <class Doc>
 static void judge_parse(Doc& d, const std::string& text, const jm::RefResult& ref, const char* cfg, bool deep) {
   bool ok = !d.HasParseError();
@@ -178,7 +202,7 @@ static void judge_parse(Doc& d, const std::string& text, const jm::RefResult& re
                       ctx + ": offset " + std::to_string(off) + " > length " + std::to_string(text.size()) + " text=" + vf::printable(text));
       if (code <= 0 || code > kParseErrorInvalidUTF8) {
         vf::violation("failure-code-not-parse-error", ctx + ": code " + std::to_string(code) + " text=" + vf::printable(text));
-      } else if (!code_allowed(ref.f, code)) {
+      } else if (!code_allowed(ref.f, code) && !structural_fault_besides_overflow(text, ref, code)) {
         vf::violation("failure-code-class:" + fault_class(ref.f) + "->" + code_name(code),
                       ctx + ": reference fault " + fault_class(ref.f) + " at " + std::to_string(ref.f.pos) + " reported as " +
                           code_name(code) + " text=" + vf::printable(text));
